@@ -281,7 +281,9 @@ class Feedback:
                 except Exception:
                     self.unused_message = ""
                 self._status = FeedbackStatus.INACTIVE
-        except Exception as e:
+        except BaseException as e:
+            # (also a condition that ends with SystemExit: the feedback is
+            # recorded as failed before the exception travels on)
             self._met_condition = False
             self._exception = e
             self._status = FeedbackStatus.ERROR
